@@ -4,8 +4,80 @@
 pub(crate) mod verif_probe {
     #[allow(unused_imports)]
     use super::*;
-    use serde_json::Value;
-    pub(crate) fn handle(_op: &str, _v: &Value) -> Option<Value> {
-        None
+    use serde_json::{json, Value};
+
+    fn unhex(s: &str) -> Vec<u8> {
+        (0..s.len() / 2).map(|i| u8::from_str_radix(&s[2 * i..2 * i + 2], 16).unwrap()).collect()
+    }
+    fn hex(b: &[u8]) -> String { b.iter().map(|x| format!("{:02x}", x)).collect() }
+    fn buf(v: &Value) -> BytesMut { BytesMut::from(&unhex(v["hex"].as_str().unwrap())[..]) }
+
+    pub(crate) fn handle(op: &str, v: &Value) -> Option<Value> {
+        match op {
+            "parse_roundtrip" => {
+                let b = buf(v);
+                match Parse::try_from(&b) {
+                    Err(e) => Some(json!({"decode_err": format!("{:?}", e)})),
+                    Ok(mut p) => {
+                        let decoded = json!({"name": p.name.clone(), "query": p.query.clone(), "num_params": p.num_params, "param_types": p.param_types.clone()});
+                        if let Some(n) = v.get("new_name").and_then(|x| x.as_str()) { p.name = n.to_string(); }
+                        let r: Result<BytesMut, Error> = p.try_into();
+                        match r {
+                            Ok(o) => Some(json!({"decoded": decoded, "hex": hex(&o)})),
+                            Err(e) => Some(json!({"decoded": decoded, "encode_err": format!("{:?}", e)})),
+                        }
+                    }
+                }
+            }
+            "parse_get_name" => {
+                match Parse::get_name(&buf(v)) { Ok(n) => Some(json!({"name": n})), Err(e) => Some(json!({"err": format!("{:?}", e)})) }
+            }
+            "bind_get_name" => {
+                match Bind::get_name(&buf(v)) { Ok(n) => Some(json!({"name": n})), Err(e) => Some(json!({"err": format!("{:?}", e)})) }
+            }
+            "bind_rename" => {
+                match Bind::rename(buf(v), v["new_name"].as_str().unwrap()) {
+                    Ok(o) => Some(json!({"hex": hex(&o)})), Err(e) => Some(json!({"err": format!("{:?}", e)})) }
+            }
+            "bind_roundtrip" => {
+                let b = buf(v);
+                match Bind::try_from(&b) {
+                    Err(e) => Some(json!({"decode_err": format!("{:?}", e)})),
+                    Ok(p) => { let r: Result<BytesMut, Error> = p.try_into();
+                        match r { Ok(o) => Some(json!({"hex": hex(&o)})), Err(e) => Some(json!({"encode_err": format!("{:?}", e)})) } }
+                }
+            }
+            "describe_roundtrip" => {
+                let b = buf(v);
+                match Describe::try_from(&b) {
+                    Err(e) => Some(json!({"decode_err": format!("{:?}", e)})),
+                    Ok(mut d) => {
+                        let decoded = json!({"target": (d.target as u32), "name": d.statement_name.clone()});
+                        if let Some(n) = v.get("new_name").and_then(|x| x.as_str()) { d = d.rename(n); }
+                        let r: Result<BytesMut, Error> = d.try_into();
+                        match r { Ok(o) => Some(json!({"decoded": decoded, "hex": hex(&o)})), Err(e) => Some(json!({"decoded": decoded, "encode_err": format!("{:?}", e)})) }
+                    }
+                }
+            }
+            "close_roundtrip" => {
+                let b = buf(v);
+                match Close::try_from(&b) {
+                    Err(e) => Some(json!({"decode_err": format!("{:?}", e)})),
+                    Ok(c) => {
+                        let decoded = json!({"close_type": (c.close_type as u32), "name": c.name.clone(), "is_ps": c.is_prepared_statement()});
+                        let r: Result<BytesMut, Error> = c.try_into();
+                        match r { Ok(o) => Some(json!({"decoded": decoded, "hex": hex(&o)})), Err(e) => Some(json!({"decoded": decoded, "encode_err": format!("{:?}", e)})) }
+                    }
+                }
+            }
+            "parse_hash" => {
+                // two Parse values built through the real decoder from their wire encodings
+                let a = Parse::try_from(&BytesMut::from(&unhex(v["a"].as_str().unwrap())[..])).unwrap();
+                let b = Parse::try_from(&BytesMut::from(&unhex(v["b"].as_str().unwrap())[..])).unwrap();
+                Some(json!({"ha": a.get_hash().to_string(), "hb": b.get_hash().to_string(),
+                            "same_statement": a.query == b.query && a.param_types == b.param_types && a.num_params == b.num_params}))
+            }
+            _ => None,
+        }
     }
 }
